@@ -39,7 +39,7 @@ AbsReal(M) == LET sm == ProjSM(M) tb == Tb(M) IN
   [sec |-> [n \in DOMAIN sm.sec |-> [st |-> sm.sec[n].st, d |-> sm.sec[n].d, p |-> sm.sec[n].p, exp |-> sm.sec[n].exp,
                                       due |-> IF sm.sec[n].st = "term" THEN 0
                                               ELSE DueOf(PartAt(M, <<sm.sec[n].d + 1, sm.sec[n].p + 1>>), n)]],
-   posted |-> sm.posted, alloc |-> sm.alloc, cron |-> sm.cron]
+   posted |-> sm.posted, alloc |-> sm.alloc]
 
 \* a failed UpdatePledgeTotal whose requested delta would have kept the ADJUSTED total non-negative
 \* is the known consequence of finding F1
